@@ -25,8 +25,9 @@ func init() {
 		Assumptions: []string{
 			"branch factors < 2 and heights below the recorded one are outside the statement; perturbations that leave a node the strict independent decoder still accepts as well-formed are not judged",
 		},
-		MinObs: map[string]int64{"perturbations_demanding_rejection": 3000, "rejections_observed": 3000},
-		Run:    runC19,
+		MinObs:  map[string]int64{"perturbations_demanding_rejection": 3000, "rejections_observed": 3000},
+		Run:     runC19,
+		EvalObs: []string{"perturbations"},
 	})
 }
 
